@@ -15,6 +15,11 @@ const DEFS = {
   paren:  (N, M) => `type ${N} = (${M});`,
   index:  (N, M) => `type ${N} = ${M}['k'];`,
   indexN: (N, M) => `type ${N} = ${M}[number];`,
+  index2: (N, M) => `type ${N} = ${M}['k']['k'];`,
+  indexParen: (N, M) => `type ${N} = (${M})['k'];`,
+  indexInline: (N, M) => `type ${N} = { k: ${M}; j: { k: ${M} }['k'] }['k' | 'j'];`,
+  imem2:  (N, M) => `interface ${N} { k: ${M}['k']['k'] }`,
+  indexNN: (N, M) => `type ${N} = Array<${M}[number]>[number];`,
   pick:   (N, M) => `type ${N} = Pick<${M}, 'k'>;`,
   omit:   (N, M) => `type ${N} = Omit<${M}, 'k'>;`,
   partial:(N, M) => `type ${N} = Partial<${M}>;`,
